@@ -1,5 +1,6 @@
 import Hv.Driver.Core
 import Hv.Qcow2
+import Hv.Qcow2Spec
 import Hv.Prim.Inflate
 namespace Hv.Driver
 open Hv
@@ -30,16 +31,81 @@ def qcowChain (st : St) (align : Nat) (layers : List String) : Except Err (Optio
     | _ => throw .other
   pure top
 
+/-- `conformantb`, evaluated only when that is cheap: the cached L1 table was readable and the image has at most 2^20
+    guest clusters (multi-terabyte images of C13 and arbitrary headers of C12 are reported as `wf=0` = "not shown to be
+    inside the hypotheses" instead of being scanned) -/
+def qcowWf (q : Qcow2.QCow2) : Bool :=
+  match q.l1 with
+  | .error _ => false
+  | .ok _ => if q.nClusters ≤ 2 ^ 20 then q.conformantb else false
+
+/-- like `qcowChain`; also returns, for the top layer, the backing content the specification is evaluated over
+    (as a `File`: a raw backing file, or the guest-visible disk `asFile` of the qcow2 layer below; empty when the
+    layer has no backing) and whether every layer that contributes is `Conformant` (`conformantb`) -/
+def qcowChainSpec (st : St) (align : Nat) (layers : List String) : Except Err (Option (Qcow2.QCow2 × File × Bool)) := do
+  let empty : File := ⟨0, fun _ => 0⟩
+  let mut backing : Option Qcow2.Reader := none
+  let mut bfile : File := empty
+  let mut wfBelow : Bool := true
+  let mut top : Option (Qcow2.QCow2 × File × Bool) := none
+  for l in layers do
+    match l.splitOn ":" with
+    | ["R", id] =>
+      let some f := st.file? id | throw .other
+      backing := some (fun off n => .ok (f.read off n))
+      bfile := f
+      wfBelow := true
+    | ["L", img, data, flags] =>
+      let some f := st.file? img | throw .other
+      let df := st.file? data
+      let allow := flags.contains 'n'
+      let bk := if flags.contains 'x' then none else backing
+      let q ← Qcow2.open f df bk allow Inflate.rawInflate
+      let b := if q.backing.isSome then bfile else empty
+      let wf := (if q.backing.isSome then wfBelow else true) && qcowWf q
+      top := some (q, b, wf)
+      backing := some (qcowAsReader q align)
+      bfile := q.asFile b
+      wfBelow := wf
+    | _ => throw .other
+  pure top
+
+/-- `slice (q.guest b) off len`, evaluated cluster by cluster through `cview` / `guestVia`
+    (`guestVia b (cview (o / cs)) o = guest b o`: `guestVia_eq`), so that the table walk and the inflation of a
+    compressed cluster happen once per cluster and not once per byte -/
+def qcowSpecRead (q : Qcow2.QCow2) (b : File) (off len : Nat) : Bytes :=
+  let cs := q.clusterSize
+  let stop := off + len
+  let rec go : Nat → Nat → Array UInt8 → Array UInt8
+    | 0, _, acc => acc
+    | fuel+1, o, acc =>
+      if o ≥ stop then acc else
+      let c := o / cs
+      let v := q.cview c
+      let e := min stop ((c + 1) * cs)
+      go fuel e ((List.range (e - o)).foldl (fun a i => a.push (q.guestVia b v (o + i))) acc)
+  (go (len + 1) off (Array.mkEmpty len)).toList
+
 def qcowInfo (q : Qcow2.QCow2) : String :=
   s!"ok size={q.size} cb={q.clusterBits} v={q.version} sub={if q.sub then 1 else 0} l1={q.l1Size} df={if q.hasDataFile then 1 else 0} " ++
   s!"bk={if q.backing.isSome then 1 else 0} nsnap={q.nbSnapshots} next={q.exts.length}"
 
 def qcow2Cmd (st : St) : List String → String
   | "qcow2.open" :: align :: layers =>
-    match qcowChain st (align.toNat?.getD 8192) layers with
-    | .ok (some q) => qcowInfo q
+    match qcowChainSpec st (align.toNat?.getD 8192) layers with
+    | .ok (some (q, _, wf)) => qcowInfo q ++ s!" wf={if wf then 1 else 0}"
     | .ok none => "bad-args"
     | .error e => s!"err {e}"
+  -- the same history answered from the pointwise specification `guest` (clamped slices of the guest-visible disk)
+  | "qcow2.spec" :: align :: nl :: rest =>
+    match align.toNat?, nl.toNat? with
+    | some a, some k =>
+      match qcowChainSpec st a (rest.take k) with
+      | .ok (some (q, b, _)) =>
+        runStream (fun off len => .ok (qcowSpecRead q b off (min len (q.size - off)))) q.size a (rest.drop k)
+      | .ok none => "bad-args"
+      | .error e => s!"err {e}"
+    | _, _ => "bad-args"
   | "qcow2.stream" :: align :: nl :: rest =>
     match align.toNat?, nl.toNat? with
     | some a, some k =>
